@@ -7,6 +7,7 @@
 package main
 
 import (
+	"bytes"
 	"flag"
 	"fmt"
 	"time"
@@ -17,10 +18,8 @@ import (
 )
 
 func judge(r *vlogrun.Rec, file string, line int, chunks [][]byte) string {
-	if len(chunks) != 1 {
-		return fmt.Sprintf("%d Write calls for one record", len(chunks))
-	}
-	out := chunks[0]
+	// how many Write calls carry the line is C02's subject: the record is what they carry together
+	out := bytes.Join(chunks, nil)
 	if len(out) == 0 || out[len(out)-1] != '\n' {
 		return fmt.Sprintf("line does not end in a newline: %q", vlogrun.Clip(out))
 	}
@@ -60,7 +59,7 @@ func judge(r *vlogrun.Rec, file string, line int, chunks [][]byte) string {
 		if s.Key != "source" || s.Val.Kind != 'o' || len(s.Val.Members) != 2 || s.Val.Members[0].Key != "file" || s.Val.Members[1].Key != "line" {
 			return fmt.Sprintf("malformed source member: %s", s.Val)
 		}
-		if s.Val.Members[0].Val.Str != vlogrun.LastTwo(file) || string(s.Val.Members[1].Val.Num) != fmt.Sprint(line) {
+		if s.Val.Members[0].Val.Kind != 's' || !vlogrun.IsFileOf(s.Val.Members[0].Val.Str, file) || string(s.Val.Members[1].Val.Num) != fmt.Sprint(line) {
 			return fmt.Sprintf("source is %s, the call site is %s:%d", s.Val, vlogrun.LastTwo(file), line)
 		}
 		i = 3
@@ -77,7 +76,6 @@ func judge(r *vlogrun.Rec, file string, line int, chunks [][]byte) string {
 	}
 	return ""
 }
-
 
 func main() {
 	flag.Parse() // before anything asks for the tier
